@@ -110,6 +110,8 @@ GenericVerdict(e) ==
           THEN Bad("wrong table, post #" \o ToString((CHOOSE k \in 1..Len(ps) : Observed(ps[k]) # Sx[ps[k].s])))
           ELSE IF ~(IF MODE = "C02" THEN C02Rel(e, x.r) ELSE ObsR(e) \in x.r)
           THEN Bad("wrong observable")
+          ELSE IF e.op = "decomp" /\ "cls" \in DOMAIN e /\ e.cls # ClassFlags(e.r)
+          THEN Bad("class family predicates disagree with the class")
           ELSE Good(Sx, x.it)
 
 -----------------------------------------------------------------------------
